@@ -91,3 +91,7 @@ where
         (self.alpha, self.beta, self.mu, self.v, self.n)
     }
 }
+
+#[cfg(kani)]
+#[path = "/verif/kani/rosomaxa/slot_machine_proofs.rs"]
+mod verif_kani_proofs;
